@@ -20,7 +20,7 @@ from ..runner import Entry, corpus_cases
 from . import c18_translate
 
 PRE = ("From Coq Require Import QArith.\nFrom EsVerif.Common Require Import Base.\n"
-       "From EsVerif.C18 Require Import Model Spec SpecTol Exec.\n")
+       "From EsVerif.C18 Require Import Model Spec SpecTol ModelKw Exec.\n")
 
 
 # ----------------------------------------------------------------------------
@@ -810,7 +810,10 @@ class GetStats(E):
                     if which in ("niter", "both"):
                         c["niter"] = b["niter"]
             c["doprint"] = r.random() < 0.15
-            c["family"] = mode + _ctfam(c)
+            # the documented wmom keyword: used in the weighted branch, ignored (swallowed) in the others
+            c["calcerr"] = r.choice([None, None, True, False]) if "weights" in mode and not mode.startswith("clip") \
+                else r.choice([None, None, None, False])
+            c["family"] = mode + ("" if c["calcerr"] is None else "/calcerr=%s" % c["calcerr"]) + _ctfam(c)
             cs.append(c)
         if round == 0:
             cs.append({"x": [[1.0, 2.0], [3.0, 5.0]], "w": None, "nsig": 3.0, "niter": None, "family": "rejected-2d-clip"})
@@ -832,6 +835,8 @@ class GetStats(E):
             if kw:
                 kw["extra"] = ex
                 kw["silent"] = True
+            if c.get("calcerr") is not None:
+                kw["calcerr"] = c["calcerr"]
             import contextlib
             import io
             w = None if c["w"] is None else A(c, "w")
@@ -844,8 +849,8 @@ class GetStats(E):
         return guarded(f)
 
     def term(self, c, out):
-        return "v_get_stats %s %s %s %s %s" % (
-            nd(c["x"]), opt(c["w"], nd), opt(c["nsig"], q1), opt(c["niter"], cz),
+        return "v_get_stats_kw %s %s %s %s %s %s" % (
+            nd(c["x"]), opt(c["w"], nd), opt(c["nsig"], q1), opt(c["niter"], cz), opt(c.get("calcerr"), cbool),
             cres(out, lambda o: "(%s, %s, %s, %s, %s, %s)" % (nd(o[0]), nd(o[1]), nd(o[2]), nd(o[3]), nd(o[4]), clist(o[5]))))
 
     def nontrivial(self, c, out):
@@ -856,7 +861,8 @@ class GetStats(E):
         return c["w"] is None or not _weights_equal(c["w"])
 
     def show(self, c):
-        return "get_stats %s %s %s %s" % (nd(c["x"]), opt(c["w"], nd), opt(c["nsig"], q1), opt(c["niter"], cz))
+        return "get_stats_kw %s %s %s %s %s" % (nd(c["x"]), opt(c["w"], nd), opt(c["nsig"], q1), opt(c["niter"], cz),
+                                                opt(c.get("calcerr"), cbool))
 
 
 def _cov(r, n, kind):
@@ -1204,6 +1210,11 @@ TRUSTED = [
     "C18_strict_checker_sound); cases in which the code takes its third exit (a round would discard every remaining point) "
     "fail that checker and are classified C18.kf_everything_clipped (theorems C18_sigma_clip_fixpoint_refuted / "
     "_outside_known); get_stats with clipping is checked for consistency with sigma_clip as it is",
+    "calls that compute in float32 (float32 arrays handed to unweighted sigma_clip, interplin tables, cov2cor/cor2cov, wmom with a "
+    "scalar inputmean) are checked by the same checkers at eps_f4 = 2^-18; these are sound at every constant (C18_tol_checkers_sound); "
+    "WHICH calls compute in float32 is decided by the harness from the container of the arguments (numpy promotion rules, not modelled)",
+    "call history: sequences on the same argument objects rewritten in place are judged step by step and against the same call made "
+    "alone; the model is a pure function of the call (C18_history_independent), the dynamic side is sampling",
     "python harness (harness/props/C18.py, c18_translate.py), exact-rational literal printers, coqc evaluating Exec.v verdict terms",
 ]
 
